@@ -23,4 +23,5 @@ def run(ctx):
     E.r_queue_ops(prog, rep)           # a lost scan request leaves its rule scanning for ever: a stall, reported as a cycle
     E.r_dfs_pairing(prog, rep)
     E.r_cancel_on_exit(prog, rep)
+    E.run_all(prog, rep)        # every other engine rule: this property is anchored in the whole engine
 from rules.engine_variants import C07 as VARIANTS  # noqa: E402
